@@ -350,6 +350,10 @@ class LP_Solver:
             self.prob += (lpSum(all_vars) == obj)
             self.perform_optimisation(obj, Optimisation_type.MINIMISE)
 
+            # Exit early if the optimisation for this rank is not solved.
+            if not LpStatus[self.prob.status] == self.model.OPTIMAL_PULP_STATUS:
+                return None
+
 
     def optimisation_greedy(self, additional_arguments):
         '''Performs greedy optimisation and adds constraints.'''
@@ -366,6 +370,10 @@ class LP_Solver:
             all_vars = self.get_all_vars_at_rank(r)
             self.prob += (lpSum(all_vars) == obj)
             self.perform_optimisation(obj, Optimisation_type.MAXIMISE)
+
+            # Exit early if the optimisation for this rank is not solved.
+            if not LpStatus[self.prob.status] == self.model.OPTIMAL_PULP_STATUS:
+                return None
 
 
     def optimisation_mincost(self, cost_multipliers):
